@@ -532,6 +532,98 @@ fn http_case(c: &HttpCase) -> Result<(usize, usize), String> {
 /// adjacent ranges is dropped after some of its items (the consumer wanted a prefix, was
 /// cancelled, hit a bad chunk), then the same reader is asked for another list. The server
 /// is correct throughout.
+/// Transfers that fail after the connection was accepted but before the response head is
+/// complete (closed without a reply, cut inside the status line or inside a header): they
+/// count against the retry budget like any other failed transfer. The failing requests
+/// come first, each on a fresh connection (the server closes after every one of them), so
+/// the client's transparent re-send on a reused idle connection never enters the picture.
+fn http_before_head_case(seed: u64, i: usize) -> Result<bool, String> {
+    let mut rng = Rng::new(seed).fork(0x0880_0000 + i as u64);
+    let flen = rng.urange(300, 3000);
+    let file = Arc::new(file_bytes(flen));
+    let budget = rng.below(4) as u32;
+    let fails = rng.below(budget as u64 + 2) as usize;
+    let kind = rng.below(3);
+    let server = Server::start(
+        file.clone(),
+        Arc::new(move |req, _f| {
+            if (req.n as usize) < fails {
+                match kind {
+                    0 => Action::Drop,
+                    1 => Action::Raw(b"HTTP/1.1 2".to_vec()),
+                    _ => Action::Raw(b"HTTP/1.1 206 Partial Content\r\nContent-Le".to_vec()),
+                }
+            } else {
+                Action::Full
+            }
+        }),
+    );
+    let url = server.url();
+    // one run of adjacent ranges = one range request
+    let n = rng.urange(1, 4);
+    let mut ranges = Vec::new();
+    let mut off = rng.urange(0, flen / 4) as u64;
+    for _ in 0..n {
+        let s = rng.urange(1, (flen / 8).max(2));
+        if off as usize + s > flen {
+            break;
+        }
+        ranges.push((off, s));
+        off += s as u64;
+    }
+    if ranges.is_empty() {
+        ranges.push((0, 1));
+    }
+    let rt = crate::exec::rt_current();
+    let rg = ranges.clone();
+    let items = crate::util::catch(|| {
+        rt.block_on(async {
+            let mut reader = crate::lib_drv::http_reader(&url, budget)?;
+            let chunks: Vec<ChunkOffset> = rg.iter().map(|&(o, s)| ChunkOffset::new(o, s)).collect();
+            let mut st = reader.read_chunks(chunks);
+            let mut items: Vec<Result<Vec<u8>, String>> = Vec::new();
+            let r = tokio::time::timeout(std::time::Duration::from_secs(20), async {
+                while let Some(r) = st.next().await {
+                    let stop = r.is_err();
+                    items.push(r.map(|b| b.to_vec()).map_err(|e| format!("{:?}", e)));
+                    if stop || items.len() > rg.len() + 2 {
+                        break;
+                    }
+                }
+            })
+            .await;
+            if r.is_err() {
+                return Err("read_chunks stream did not finish within 20 s".to_string());
+            }
+            Ok(items)
+        })
+    })
+    .and_then(|x| x)?;
+    let requests = server.take_log().len();
+    let what = ["closed without a reply", "cut inside the status line", "cut inside a header"][kind as usize];
+    if fails as u32 <= budget {
+        if items.len() != ranges.len() || items.iter().any(|x| x.is_err()) {
+            return Err(format!("{} transfer(s) {} before the body, budget {}: expected all {} ranges, got {:?}", fails, what, budget, ranges.len(), items.iter().map(|x| x.as_ref().map(|v| v.len()).map_err(|e| e.chars().take(80).collect::<String>())).collect::<Vec<_>>()));
+        }
+        for (k, (o, sz)) in ranges.iter().enumerate() {
+            if items[k].as_ref().unwrap()[..] != file[*o as usize..*o as usize + sz] {
+                return Err(format!("range {} delivered wrong bytes after {} failure(s) {}", k, fails, what));
+            }
+        }
+        if requests != fails + 1 {
+            return Err(format!("{} failure(s) {} within budget {}: {} requests were made, expected {}", fails, what, budget, requests, fails + 1));
+        }
+    } else {
+        if !items.last().map(|x| x.is_err()).unwrap_or(false) {
+            return Err(format!("{} failure(s) {} with budget {}: an error is required, got {} item(s) without one", fails, what, budget, items.len()));
+        }
+        if requests != budget as usize + 1 {
+            return Err(format!("{} failure(s) {} with budget {}: {} requests were made, the budget allows exactly {}", fails, what, budget, requests, budget + 1));
+        }
+    }
+    Ok(fails > 0)
+}
+
 fn http_history_case(seed: u64, i: usize) -> Result<(), String> {
     let mut rng = Rng::new(seed).fork(0x0870_0000 + i as u64);
     let flen = rng.urange(300, 3000);
@@ -851,6 +943,21 @@ pub fn run(tier: Tier, seed: u64) -> i32 {
     local_engine(&rep, seed, tier);
     http_engine(&rep, seed, tier);
     {
+        let n = tier.pick(300, 6000);
+        let out = par_map(n, crate::util::ncpu(), |i| (i, http_before_head_case(seed, i)));
+        for (i, r) in out {
+            rep.eval();
+            match r {
+                Ok(true) => {
+                    rep.count("http.before_head_failure_cases", 1);
+                    rep.nontrivial(format!("beforehead#{}", i));
+                }
+                Ok(false) => {}
+                Err(why) => rep.violation("c08/http/failure before the response head", json!({"why": why}), json!({"engine": "http-before-head", "seed": seed, "i": i})),
+            }
+        }
+    }
+    {
         let n = tier.pick(600, 20_000);
         let out = par_map(n, crate::util::ncpu(), |i| (i, http_history_case(seed, i)));
         for (i, r) in out {
@@ -884,6 +991,7 @@ pub fn replay(v: &Value) -> i32 {
     let res = match r["engine"].as_str().unwrap_or("") {
         "http" => http_case(&HttpCase::from(r)).map(|_| ()),
         "http-history" => http_history_case(r["seed"].as_u64().unwrap_or(1), r["i"].as_u64().unwrap_or(0) as usize),
+        "http-before-head" => http_before_head_case(r["seed"].as_u64().unwrap_or(1), r["i"].as_u64().unwrap_or(0) as usize).map(|_| ()),
         "local" => {
             let ranges: Vec<(u64, usize)> = r["ranges"].as_array().unwrap().iter().map(|x| (x[0].as_u64().unwrap(), x[1].as_u64().unwrap() as usize)).collect();
             let comp: Vec<usize> = r["comp"].as_array().unwrap().iter().map(|x| x.as_u64().unwrap() as usize).collect();
